@@ -41,6 +41,8 @@ def wl_heavy(ctx, rng, case):
         ctx.count("universes_with_text_and_bytes_spellings")
     H = rng.randint(1, 4)
     width, depth = rng.choice([1, 2, 3, 4, 5, 50]), rng.randint(1, 3)
+    if rng.random() < 0.25:
+        width, depth = rng.randint(1, 70), rng.randint(1, 6)
     hname, hf = gen.pick_hash(rng, keys)
     case.desc = {"kind": "heavy", "hitters": H, "width": width, "depth": depth, "hash": hname, "n_keys": len(keys)}
     ctx.observe("widths", width)
@@ -132,6 +134,8 @@ def wl_threshold(ctx, rng, case):
         ctx.count("universes_with_text_and_bytes_spellings")
     T = rng.randint(1, 8)
     width, depth = rng.choice([1, 1, 2, 3, 4, 5, 50]), rng.randint(1, 3)
+    if rng.random() < 0.25:
+        width, depth = rng.randint(1, 70), rng.randint(1, 6)
     hname, hf = gen.pick_hash(rng, keys)
     case.desc = {"kind": "threshold", "threshold": T, "width": width, "depth": depth, "hash": hname, "n_keys": len(keys)}
     ctx.observe("widths", width)
